@@ -37,3 +37,22 @@ for _t in ('nterm', 'cterm'):
                   'some(%s) == CAT_ModList(some(%s), fix_list_of_mods(some(mods))))' % (_F, _G, _G, _F)),
                  ('with-a-value-the-terminus-is-modified', 'implies(mods is not None, %s is not None)' % _G),
                  ('nothing-else', _others)])
+
+# add_internal_mod(index, mods, append): the residue store the builders / condensing write through
+C.update({k: v for k, v in accessor_contracts().items() if k.split('.')[-1] in ('internal_mods', 'has_internal_mods')})
+_IOTH = ' and '.join('same(self_final.%s, self.%s)' % (g, g) for g in _ALL if g != '_internal_mods')
+MACROS = {
+    'imh': (['x', 'j'], 'x._internal_mods is not None and (j in some(x._internal_mods))'),
+    'ima': (['x', 'j'], 'some(x._internal_mods)[j]'),
+}
+C[PA + 'add_internal_mod'] = dict(
+    params=dict(self='Annotation', index='int', mods='Optional[ModList]', append='bool'), returns='None', mutates=['self'], raises={},
+    ensures=[('none-with-replace-clears-the-position', 'implies(mods is None and not append, not imh(self_final, index))'),
+             ('none-with-append-changes-nothing', 'implies(mods is None and append, same(self_final._internal_mods, self._internal_mods))'),
+             ('a-value-replaces', 'implies(mods is not None and (not append or not imh(self, index)), imh(self_final, index) and '
+                                  'ima(self_final, index) == fix_list_of_mods(some(mods)))'),
+             ('a-value-is-appended-to-an-existing-position',
+              'implies(mods is not None and append and imh(self, index), imh(self_final, index) and '
+              'ima(self_final, index) == CAT_ModList(ima(self, index), fix_list_of_mods(some(mods))))'),
+             ('other-positions-kept', 'forall(lambda j: implies(j != index, imh(self_final, j) == imh(self, j) and implies(imh(self, j), ima(self_final, j) == ima(self, j))))'),
+             ('nothing-else', _IOTH)])
